@@ -571,3 +571,38 @@ def debug_run(mode, f, g, args, env):
     except BaseException as e:  # pylint:disable=broad-except
       return 'converted(contract) raised %s: %s' % (type(e).__name__, e)
   return ''
+
+
+# ---------------------------------------------------------------------------
+# C16: conversion-status context around generated code
+# ---------------------------------------------------------------------------
+
+def probe(tag):
+  """Logs the conversion status seen at this point (artifact: runs as-is)."""
+  from malt.core import ag_ctx
+  from vf import rt
+  rt.LOG.append(('status', tag, ag_ctx.control_status_ctx().status.name))
+  return 0
+
+
+probe.autograph_info__ = None
+
+
+def post_ctx(mode, f, g, args, env):
+  """After g(args) - returning or raising - the status object is the one from before,
+  the stack is unchanged, and every probe saw the status its tag promises."""
+  from malt.core import ag_ctx
+  from vf import rt
+  before = ag_ctx.control_status_ctx()
+  depth = len(ag_ctx._control_ctx())
+  og = rt.obs(g, args, env)
+  if ag_ctx.control_status_ctx() is not before or len(ag_ctx._control_ctx()) != depth:
+    return False
+  want = {'E': 'ENABLED', 'D': 'DISABLED', 'U': 'UNSPECIFIED'}
+  for e in og[1]:
+    if isinstance(e, tuple) and len(e) == 3 and e[0] == 'status':
+      if want[e[1][0]] != e[2]:
+        return False
+  of = rt.obs(f, args, env)
+  strip = lambda o: (o[0], [e for e in o[1] if not (isinstance(e, tuple) and e and e[0] == 'status')], o[2], o[3])
+  return rt.same_obs(strip(of), strip(og))
